@@ -148,9 +148,12 @@ func interpField(pf *PField, dbase byte, b []byte, be bool, tm *timeModel) (val 
 			return "", false // don't-care 2
 		}
 		if pf.Num == 253 {
+			// every explicit timestamp re-bases the reference; 0 is "no reference".
+			// (A reference below the system-time marker only matters for local
+			// timestamps, which then count as "without reference".)
 			tm.ref = v
-			tm.refSet = true
-			tm.chaos = v < 0x10000000
+			tm.refSet = v != 0
+			tm.chaos = false
 		}
 		return canonTimeVal(fitEpochUnix+int64(v), 0), true
 	case kindLocal:
@@ -164,8 +167,8 @@ func interpField(pf *PField, dbase byte, b []byte, be bool, tm *timeModel) (val 
 		if tm.chaos {
 			return "w" + strconv.FormatInt(fitEpochUnix+int64(v), 10), true
 		}
-		if !tm.refSet {
-			// no reference: offset 0; from here on the reference is unknown to the model
+		if !tm.refSet || tm.ref < 0x10000000 {
+			// no usable reference: offset 0; from here on the reference is unknown to the model
 			tm.chaos = true
 			return canonTimeVal(fitEpochUnix+int64(v), 0), true
 		}
